@@ -40,6 +40,36 @@ impl Provenance {
             other => Provenance::Field(Box::new(other.clone()), index),
         }
     }
+
+    /// This provenance with every part that goes through the variable `name` made `Unknown`.
+    /// Provenances refer to variables by name, so they stop being valid for `name` once a
+    /// pattern binds that name again (in this scope or an inner one).
+    pub fn without_variable(&self, name: &str) -> Provenance {
+        match self {
+            Provenance::Variable(variable) if variable == name => Provenance::Unknown,
+            Provenance::Field(parent, index) => match parent.without_variable(name) {
+                Provenance::Unknown => Provenance::Unknown,
+                parent => Provenance::Field(Box::new(parent), *index),
+            },
+            Provenance::Tuple(fields) => Provenance::Tuple(
+                fields
+                    .iter()
+                    .map(|field| field.without_variable(name))
+                    .collect(),
+            ),
+            other => other.clone(),
+        }
+    }
+
+    /// Whether no part of this provenance is `Unknown`, i.e. it identifies its source exactly.
+    pub fn is_exact(&self) -> bool {
+        match self {
+            Provenance::Unknown => false,
+            Provenance::Variable(_) | Provenance::Parameter => true,
+            Provenance::Field(parent, _) => parent.is_exact(),
+            Provenance::Tuple(fields) => fields.iter().all(Provenance::is_exact),
+        }
+    }
 }
 
 /// Type narrowings in effect within a scope.
